@@ -103,7 +103,9 @@ def gen_site(rng: random.Random, scratch: str, name_classes=("plain", "spaces", 
                          "Name=Finger information\nType=0\nPath=lindner\nHost=mudhoney.example.org\nPort=79\n\n"
                          "Name=Bucktooth style remote\nType=1\nPath=1/docs/about\nHost=other.example.org\nPort=70\n\n"
                          "Name=Relative bare\nType=0\nPath=two.txt\n\n"
-                         "Name=Other host std port\nType=1\nPath=/otherhost\nHost=gopher2.example.org\nPort=+\n")
+                         "Name=Other host std port\nType=1\nPath=/otherhost\nHost=gopher2.example.org\nPort=+\n\n"
+                         "Name=Search on another server\nType=7\nPath=/v2/vs\nHost=search.example.org\nPort=70\n\n"
+                         "Name=Search here on another port\nType=7\nPath=/find\nHost=+\nPort=7070\n")
     t.file("umn/.abstract", "Directory about UMN things")
     # gophermap directory
     t.dir("gm")
@@ -113,7 +115,8 @@ def gen_site(rng: random.Random, scratch: str, name_classes=("plain", "spaces", 
     gmtext = ("Welcome to the map\n\n0Local file\tlocal.txt\n0Absolute\t/umn/one.txt\n"
               "1Remote dir\t/x\tgopher.example.org\t70\n1Up\t/umn\nhWeb\tURL:http://example.org/a?b=c\n"
               "hWeb query\tURL:http://example.org/find?q=gopher&lang=en&x=<1>\nhTick\tURL:http://example.org/it's&amp;\n"
-              "7Search it\t/gm/local.txt\n"
+              "7Search it\t/gm/local.txt\n7Search elsewhere\t/v2/vs\tsearch.example.org\t70\n"
+              "7Search elsewhere, other port\t/find it\tsearch.example.org\t7070\n"
               "hMail the admin\tURL:mailto:admin@example.org\nhNews group\tURL:news:comp.infosystems.gopher\n"
               "0local.txt\t\n0Last line\tlocal.txt\n")
     # as written on Unix, on DOS, or without a final line terminator
@@ -125,6 +128,16 @@ def gen_site(rng: random.Random, scratch: str, name_classes=("plain", "spaces", 
     if gmstyle.endswith("unterminated"):
         gmtext = gmtext.rstrip("\r\n")
     t.file("gm/gophermap", gmtext)
+    # directories whose own names match the patterns by which handlers recognise *files* (a folder someone called
+    # old.gophermap, a mirror of a download area): they are directories, listed and served as such
+    for dn, with_map in (("old.gophermap", True), ("drafts.gophermap", False), ("photos.zip", False), ("inbox.mbox", False),
+                         ("site.html", False), ("tools.pyg", False), ("logs.txt.gz", False), ("tpl.html.tal", False)):
+        t.file("named/%s/first.txt" % dn, "first in %s\n" % dn)
+        m.add(("/named/%s" % dn).encode(), "menu", tags=["dir", "dir-named-like-a-file"])
+        m.add(("/named/%s/first.txt" % dn).encode(), "doc", ("first in %s\n" % dn).encode(), mime="text/plain", tags=["file"])
+        if with_map:
+            t.file("named/%s/gophermap" % dn, "A folder that happens to be called like a map file\n0First\tfirst.txt\n")
+    m.add(b"/named", "menu", tags=["dir"])
     if with_mail:
         subj = ["Hello world", "Re: A & B <tag>", "third  message"]
         t.file("mail.mbox", trees.make_mbox(subj, scratch))
